@@ -56,6 +56,7 @@ def run(tier):
     vf.build_lib("plain")
     models = docgen.generate(c, ["struct", "labels", "system", "mixed"], 1200 if quick else 12000, c.seed, bfs_budget=2 if quick else 3)
     rnd = random.Random(c.seed)
+    models = [e for e in models if not e["m"].get("localids")]      # ids (and the warning about reused ones) exist in the XML format only
     cases = [("ok", e["m"], None) for e in models]
     pool = [e["m"] for e in models if any(t["edges"] for t in e["m"]["templs"])]
     for k in range(300 if quick else 3000):
